@@ -111,6 +111,7 @@ def run(check, prog):
     r8_uniform_guess(check, prog, canon)
     r9_updated_support(check, prog)
     r10_ufunc_protocol(check, prog)
+    r11_shared_base_samples(check, prog)
 
 
 # ----------------------------------------------------------------------
@@ -936,3 +937,42 @@ def r10_ufunc_protocol(check, prog):
                   'under [%s]: np.float64(0) * prior is a prior (it should raise), '
                   'np.float64(1) * prior and np.float64(0) + prior are new objects (they '
                   'should be the prior itself)' % '; '.join(bad)[:160])
+
+
+def r11_shared_base_samples(check, prog):
+    """R11: "samples equal the same operation applied to the base prior's samples".
+
+    When one base prior occurs several times in an expression (u - u, u / u, g * g,
+    also across nesting levels), the operation is applied to *one* sample of it --
+    as the guess (one value per prior object) and the parameter map (one parameter
+    per prior object, by identity) do.  A sampler that draws afresh for every
+    occurrence cannot satisfy this; drawing once per distinct object needs the
+    draws to be keyed by the object (a memo by identity handed to nested calls)."""
+    q = P + 'TransformedPrior.sample'
+    fd = prog.func(q)
+    loc = prog.loc(q, fd)
+    it = Interp(prog, max_depth=0)
+    res = it.analyze(q)
+    me = sym(fd.args.args[0].arg)
+    bp = intern(('attr', me, 'base_prior'))
+    per_occurrence = False
+    keyed = False
+    for o in res.returns:
+        for x in subterms(o.value):
+            if x[0] == 'comp' and any(g[1] == bp for g in x[3]):
+                e = [g[0] for g in x[3] if g[1] == bp][0]
+                if any(y[0] == 'call' and y[1] == ('attr', e, 'sample')
+                       for y in subterms(x[2])):
+                    per_occurrence = True
+            if x[0] == 'call' and x[1] == 'id':
+                keyed = True
+    names = {a.arg for a in fd.args.args} | {a.arg for a in fd.args.kwonlyargs}
+    keyed = keyed or bool(names & {'memo', '_memo', 'cache', 'drawn'})
+    check.require(keyed or not per_occurrence, 'R11-shared-base-samples',
+                  'TransformedPrior.sample',
+                  'a base prior that occurs several times is sampled once', loc,
+                  fail_detail='every element of base_prior is sampled on its own '
+                  '(`bp.sample(size) for bp in self.base_prior`), with nothing keyed by '
+                  'the prior object: (u - u).sample(1000) spans [-1.9, 2.0] and (g * g) '
+                  'is negative half of the time, while the guesses are 0 and g**2 and '
+                  'the parameter map ties the two occurrences')
